@@ -31,6 +31,7 @@ type poolProof struct {
 	bytes []byte
 	// honest: made by the real prover for shard hash number src (>= 0); forged otherwise
 	src      int
+	key      string // "A" = the genesis (default) key pair, "B" = the harness's second key pair
 	kind     string
 	parses   bool
 	parseErr string
@@ -49,8 +50,36 @@ type zk struct {
 	doubleHash []*big.Int // MiMC(S_a) as integer
 	proofs     []poolProof
 	hashes     []poolHash
-	// cache of direct verification calls: (proof id, hash id) -> ok
-	verified map[[2]int]bool
+	// cache of direct verification calls: (key in force, proof id, hash id) -> ok
+	verified map[[3]int]bool
+	// the two key pairs: 0 = "A" (default params), 1 = "B" (groth16.Setup by the harness)
+	vkBytes  [2][]byte
+	pkBytes  [2][]byte
+	vks      [2]groth16.VerifyingKey
+	stateKey int   // key in force on the state the current message runs on
+	idsB     []int // pool ids of the honest proofs made with key B, by shard number
+}
+
+func parseVK(bz []byte) (groth16.VerifyingKey, error) { // gnark directly, not through x/da/zkp
+	vk := groth16.NewVerifyingKey(ecc.BN254)
+	_, err := vk.ReadFrom(bytes.NewReader(bz))
+	return vk, err
+}
+
+// useKeyOf selects, for the oracle tables, the verifying key stored in the params of the state
+// behind ctx (the params IN FORCE for a message that runs on ctx)
+func (z *zk) useKeyOf(ctx sdk.Context, k dakeeper.Keeper) error {
+	p, err := k.Params.Get(ctx)
+	if err != nil {
+		return err
+	}
+	for i := range z.vkBytes {
+		if bytes.Equal(p.ZkpVerifyingKey, z.vkBytes[i]) {
+			z.stateKey, z.vk = i, z.vks[i]
+			return nil
+		}
+	}
+	return fmt.Errorf("c20: params hold an unknown verifying key")
 }
 
 func mimcOf(x *big.Int) *big.Int {
@@ -94,7 +123,7 @@ func tryParse(bz []byte) (ok bool, msg string) {
 
 // the handler's own verification step, called directly
 func (z *zk) verify(p poolProof, h poolHash) bool {
-	key := [2]int{p.id, h.id}
+	key := [3]int{z.stateKey, p.id, h.id}
 	if v, ok := z.verified[key]; ok {
 		return v
 	}
@@ -117,12 +146,13 @@ func (z *zk) verify(p poolProof, h poolHash) bool {
 }
 
 func newZK(r *emit.Rand, params datypes.Params) (*zk, error) {
-	z := &zk{verified: map[[2]int]bool{}}
-	vk, err := zkp.UnmarshalVerifyingKey(params.ZkpVerifyingKey)
+	z := &zk{verified: map[[3]int]bool{}}
+	vk, err := parseVK(params.ZkpVerifyingKey)
 	if err != nil {
 		return nil, err
 	}
 	z.vk = vk
+	z.vks[0], z.vkBytes[0], z.pkBytes[0] = vk, params.ZkpVerifyingKey, params.ZkpProvingKey
 	pk, err := zkp.UnmarshalProvingKey(params.ZkpProvingKey)
 	if err != nil {
 		return nil, err
@@ -204,12 +234,38 @@ func newZK(r *emit.Rand, params datypes.Params) (*zk, error) {
 	z.addHash(be32(z.shardHash[4]), "s4 itself")
 	z.addHash([]byte{}, "empty")
 	z.addHash(be32(r.Big(q)), "random")
+	// a second key pair for the same circuit (what a governance key rotation installs) and
+	// honest proofs made with it
+	pkB, vkB, err := groth16.Setup(ccs)
+	if err != nil {
+		return nil, err
+	}
+	if z.pkBytes[1], err = zkp.MarshalProvingKey(pkB); err != nil {
+		return nil, err
+	}
+	if z.vkBytes[1], err = zkp.MarshalVerifyingKey(vkB); err != nil {
+		return nil, err
+	}
+	if z.vks[1], err = parseVK(z.vkBytes[1]); err != nil {
+		return nil, err
+	}
+	for a := 0; a < 3; a++ {
+		assignment := zkp.ValidityProofCircuit{ShardHash: z.shardHash[a], ShardDoubleHash: z.doubleHash[a]}
+		w, _ := frontend.NewWitness(&assignment, ecc.BN254.ScalarField())
+		proof, err := groth16.Prove(ccs, pkB, w)
+		if err != nil {
+			return nil, err
+		}
+		z.idsB = append(z.idsB, len(z.proofs))
+		z.addProof(marshalProof(proof), a, "honest-keyB")
+		z.proofs[len(z.proofs)-1].key = "B"
+	}
 	return z, nil
 }
 
 func (z *zk) addProof(bz []byte, src int, kind string) {
 	ok, msg := tryParse(bz)
-	z.proofs = append(z.proofs, poolProof{id: len(z.proofs), bytes: bz, src: src, kind: kind, parses: ok, parseErr: msg})
+	z.proofs = append(z.proofs, poolProof{id: len(z.proofs), bytes: bz, src: src, key: "A", kind: kind, parses: ok, parseErr: msg})
 }
 
 func (z *zk) addHash(bz []byte, kind string) {
@@ -224,6 +280,9 @@ func (z *zk) expected(p poolProof, h poolHash) string {
 	}
 	if p.src < 0 {
 		return "None"
+	}
+	if (p.key == "B") != (z.stateKey == 1) { // made with the other key pair than the one in force
+		return "(Some false)"
 	}
 	v := new(big.Int).SetBytes(h.bytes)
 	v.Mod(v, fr.Modulus())
@@ -491,8 +550,11 @@ func (c *ctxRun) submitCases(n int) error {
 			all = append(all, gen())
 		}
 	}
-	for ci, s := range all {
-		uri := fmt.Sprintf("ipfs://c20/%d", ci)
+	runOne := func(ctx sdk.Context, ci string, s sub) error {
+		if err := z.useKeyOf(ctx, h.App.DaKeeper); err != nil {
+			return err
+		}
+		uri := "ipfs://c20/" + ci
 		dh := make([][]byte, len(s.hashes))
 		for i, id := range s.hashes {
 			dh[i] = z.hashes[id].bytes
@@ -608,6 +670,20 @@ func (c *ctxRun) submitCases(n int) error {
 			c.st.Nontriv(fmt.Sprintf("submit/%v/%v/%v", s.indices, s.proofs, s.hashes))
 			c.st.Sample(info)
 		}
+		return nil
+	}
+	for ci, s := range all {
+		if err := runOne(ctx, fmt.Sprint(ci), s); err != nil {
+			return err
+		}
+	}
+	if err := c.rotationCases(h, z, sender, srv, func(ctx sdk.Context, ci string, tag string, indices []int64, proofs []int) error {
+		return runOne(ctx, ci, sub{hashes: []int{0, 1, 2}, indices: indices, proofs: proofs, tag: tag})
+	}); err != nil {
+		return err
+	}
+	if err := z.useKeyOf(ctx, h.App.DaKeeper); err != nil {
+		return err
 	}
 	// the verification oracle on every honest proof against every pool hash (matching and mismatching)
 	var verT, parseT []string
@@ -662,5 +738,87 @@ func (c *ctxRun) submitCases(n int) error {
 	c.st.Evaluations++
 	c.st.Extra["proof_pool"] = pk
 	c.st.Extra["hash_pool"] = hk
+	return nil
+}
+
+// Key rotation through Msg/UpdateParams executed on a branch of state (as in FinalizeBlock before
+// the commit), with submissions on the committed state below it (what CheckTx / simulation run
+// on, old params), on the branch (new params) and after the commit: every message must be judged
+// under the verifying key of the params of ITS state.
+func (c *ctxRun) rotationCases(h *apph.H, z *zk, sender string, srv datypes.MsgServer,
+	run func(ctx sdk.Context, ci, tag string, indices []int64, proofs []int) error) error {
+	ctx := h.Ctx()
+	authority := sdk.AccAddress(h.App.DaKeeper.GetAuthority()).String()
+	rotate := func(ctx sdk.Context, to int) error {
+		p, err := h.App.DaKeeper.Params.Get(ctx)
+		if err != nil {
+			return err
+		}
+		p.ZkpVerifyingKey, p.ZkpProvingKey = z.vkBytes[to], z.pkBytes[to]
+		c.st.Count("rotation:UpdateParams")
+		return apph.Tx(ctx, func(ctx sdk.Context) error {
+			_, e := srv.UpdateParams(ctx, &datypes.MsgUpdateParams{Authority: authority, Params: p})
+			return e
+		})
+	}
+	proofsOf := func(key int) []int { // honest proofs for shards 0,1,2 made with that key
+		if key == 1 {
+			return z.idsB
+		}
+		return []int{0, 1, 2}
+	}
+	n := 0
+	step := func(ctx sdk.Context, tag string, indices []int64, proofs []int) error {
+		n++
+		return run(ctx, fmt.Sprintf("rot-%d", n), "rotation:"+tag, indices, proofs)
+	}
+	all3 := []int64{0, 1, 2}
+	cur := 0
+	for round := 0; round < 2; round++ {
+		for leg := 0; leg < 2; leg++ {
+			next := 1 - cur
+			// before the rotation, committed state
+			if err := step(ctx, "before:current-key-proofs", all3, proofsOf(cur)); err != nil {
+				return err
+			}
+			if err := step(ctx, "before:other-key-proof", []int64{1}, proofsOf(next)[1:2]); err != nil {
+				return err
+			}
+			// the rotation executes on a branch of state (the block being finalized); the
+			// committed state below it (what CheckTx / simulation run on) keeps the old params
+			fin, commit := ctx.CacheContext()
+			if err := rotate(fin, next); err != nil {
+				return fmt.Errorf("c20: UpdateParams failed: %w", err)
+			}
+			if err := step(ctx, "check-state:old-key-proofs", all3, proofsOf(cur)); err != nil {
+				return err
+			}
+			if err := step(ctx, "check-state:new-key-proof", []int64{2}, proofsOf(next)[2:3]); err != nil {
+				return err
+			}
+			// on the branch the new key is in force
+			if err := step(fin, "finalize-state:new-key-proofs", all3, proofsOf(next)); err != nil {
+				return err
+			}
+			if err := step(fin, "finalize-state:old-key-proof", []int64{0}, proofsOf(cur)[0:1]); err != nil {
+				return err
+			}
+			if err := step(ctx, "check-state-again:old-key-proof", []int64{1}, proofsOf(cur)[1:2]); err != nil {
+				return err
+			}
+			commit()
+			// after the commit, committed state
+			if err := step(ctx, "after:new-key-proofs", all3, proofsOf(next)); err != nil {
+				return err
+			}
+			if err := step(ctx, "after:old-key-proof", []int64{0}, proofsOf(cur)[0:1]); err != nil {
+				return err
+			}
+			if err := step(ctx, "after:mixed-keys", []int64{0, 1}, []int{proofsOf(next)[0], proofsOf(cur)[1]}); err != nil {
+				return err
+			}
+			cur = next
+		}
+	}
 	return nil
 }
